@@ -339,9 +339,10 @@ def gen_domspec(t, kinds=None, small=False):
         if cast_int:
             # integer grids are used with integer-like bounds in the docs; keep
             # arbitrary float bounds too
-            if t.bool():
-                lo = float(math.floor(lo))
-                up = float(math.ceil(up))
+            # (a grid of integers with non-integer bounds lists values outside
+            # [lower, upper]: not a legal input)
+            lo = float(math.floor(lo))
+            up = float(math.ceil(up))
             if kind == "logfinrange" and lo < 1.0:
                 # a log-scaled integer grid containing the value 0 cannot be
                 # encoded (log 0): not a legal input
